@@ -135,6 +135,7 @@ func runC18(c *Ctx) {
 	for _, ag := range ctrlAgents {
 		c18Gates(c, ag)
 		c18Dispatch(c, ag)
+		c18ResetQueues(c, ag)
 	}
 	c.Floor("dispatch", 12)
 	c.Floor("pause-gate", 40)
@@ -1164,4 +1165,81 @@ func isPurePredicate(f *ssa.Function, depth int) bool {
 		}
 	}
 	return true
+}
+
+// typeHoldsQueue reports whether values of t contain a queueing.Buffer or
+// queueing.Pipeline (in-flight work by construction).
+func typeHoldsQueue(t types.Type, depth int) bool {
+	if depth > 6 {
+		return false
+	}
+	if n, ok := t.(*types.Named); ok {
+		if o := n.Origin().Obj(); o.Pkg() != nil && o.Pkg().Path() == ModPath+"/queueing" && (o.Name() == "Buffer" || o.Name() == "Pipeline") {
+			return true
+		}
+	}
+	switch u := t.Underlying().(type) {
+	case *types.Struct:
+		for i := 0; i < u.NumFields(); i++ {
+			if typeHoldsQueue(u.Field(i).Type(), depth+1) {
+				return true
+			}
+		}
+	case *types.Slice:
+		return typeHoldsQueue(u.Elem(), depth+1)
+	case *types.Array:
+		return typeHoldsQueue(u.Elem(), depth+1)
+	case *types.Pointer:
+		return typeHoldsQueue(u.Elem(), depth+1)
+	case *types.Map:
+		return typeHoldsQueue(u.Elem(), depth+1)
+	}
+	return false
+}
+
+// c18ResetQueues: the Reset handler re-initialises every State field that holds
+// a queueing.Buffer or queueing.Pipeline.
+func c18ResetQueues(c *Ctx, ag ctrlAgent) {
+	p := c.P
+	st := p.LookupType(ag.rel, "State")
+	ctor, cmap := ctrlCtor(p, ag.rel)
+	if st == nil || ctor == nil {
+		return
+	}
+	resetVal := constVal(p, mcp, "CmdReset")
+	var handlers []*ssa.Function
+	for _, f := range p.SrcFuncs(func(pp string) bool { return pp == pkgPath(ag.rel) }) {
+		for _, b := range f.Blocks {
+			for _, in := range b.Instrs {
+				call, ok := in.(ssa.CallInstruction)
+				if !ok || call.Common().StaticCallee() == nil || call.Common().StaticCallee().Object() != types.Object(ctor) {
+					continue
+				}
+				if i, has := cmap["Command"]; has && i < len(call.Common().Args) {
+					if cst, isC := call.Common().Args[i].(*ssa.Const); isC && cst.Value != nil && cst.Value.ExactString() == resetVal {
+						handlers = append(handlers, f)
+					}
+				}
+			}
+		}
+	}
+	if len(handlers) == 0 {
+		c.Unknown("reset-queues", ag.rel, token.NoPos, "the Reset handler (the function that builds the CmdReset response) was not found")
+		return
+	}
+	s := st.Type().Underlying().(*types.Struct)
+	for i := 0; i < s.NumFields(); i++ {
+		fld := s.Field(i)
+		if !typeHoldsQueue(fld.Type(), 0) {
+			continue
+		}
+		ok := false
+		for _, h := range handlers {
+			if closureWritesField(p, h, fld, pkgPath(ag.rel)) {
+				ok = true
+			}
+		}
+		c.Check(ok, "reset-queues", ag.rel+":State."+fld.Name(), handlers[0].Pos(), "re-initialised by Reset",
+			"State."+fld.Name()+" holds a buffer or pipeline of in-flight work but the Reset handler never clears it: work staged there before the Reset keeps flowing and answers pre-reset requests after the Reset was acknowledged")
+	}
 }
